@@ -4,7 +4,7 @@ Two correspondence streams against the Lean model `AiuVerif.Stats` (Model/Stats.
 
 * stage level: the real `calculate_stats` callback with a real `StatsExtractionContext` inside a real
   `EventProcessor` driven by the real `Engine.run` (lib.stage.run_stages) on generated event streams
-  (exhaustive short streams over a 12-letter event alphabet with ties, merged names, two pids and the
+  (exhaustive short streams over a 13-letter event alphabet with ties, merged names, two pids and the
   two error branches; random structured streams).  Compared: error class, and the parsed rows of
   `<out>_summary.csv` / `<out>_active.csv` in file order.
 * end to end: the real `Acelyzer` API (lib.stage.e2e) on generated multi-rank FLEX scenarios
@@ -57,11 +57,15 @@ THEOREMS = [
     "AiuVerif.C12.rows_ordered",
     "AiuVerif.C12.run_ok_iff",
 ]
-RULE = ("stage level: all event streams of length <= L (L=4 quick, 5 thorough) over a 12-letter alphabet "
+RULE = ("stage level: all event streams of length <= L (L=4 quick, 5 thorough) over a 13-letter alphabet "
         "(three spellings of one masked kernel name, a second kernel with a tying total, a second pid, "
-        "non-kernel X/C events, zero duration, missing TS counters) plus random streams of up to 60 events "
-        "(1-4 pids, names built from separators/digit runs, durations on the 1/4 us grid with repeats); "
-        "e2e: generated multi-rank scenarios x option sets through the Acelyzer API. A case is non-trivial "
+        "non-kernel X/C events, zero duration, missing TS counters, a slice containing all others with an equal "
+        "earliest start and a slice starting inside and outlasting all others -- so every arrival order of "
+        "contained / containing / outlasting intervals occurs) plus random streams of up to 62 events "
+        "(1-4 pids, names built from separators/digit runs, durations on the 1/4 us grid with repeats, long "
+        "containing slices, ascending / descending / shuffled arrival); "
+        "e2e: generated multi-rank scenarios (sequential kernels, optionally one long kernel per rank that contains "
+        "or outlasts them) x option sets through the Acelyzer API. A case is non-trivial "
         "when the files contain a group with >= 2 calls or a rank with >= 2 groups; distinct = distinct "
         "canonical input (event stream / scenario spec + options)")
 TRUSTED = [
@@ -199,6 +203,9 @@ def build_e2e(spec):
     ranks = [scenario.Rank(r, 512.0, 1_000_000_000.0, spec["dev_epochs"][r]) for r in range(R)]
     tmax = 0.0
     for r, kernels in enumerate(spec["ranks"]):
+        for name, start, prep, execd in (spec.get("long") or [[]] * R)[r]:
+            # a long kernel that contains / outlasts the sequential ones started after it
+            scenario.kernel(ranks[r], name, 100.0 + float(F(start)), float(F(prep)), float(F(execd)), 2)
         t = 100.0
         for name, gap, prep, execd in kernels:
             t = scenario.kernel(ranks[r], name, t + float(F(gap)), float(F(prep)), float(F(execd)), 2)
@@ -414,7 +421,10 @@ ALPHABET = [
     K("k_3 Cmpt Exec", 0, 4, 0),
     K("k_3 Cmpt Exec", 0, 4, 1, ok=0),
     K("k_3 Cmpt Exec", 1, 4, 0, ok=0),
-    K("k_44 Cmpt Exec", 0, 7, F(5, 4)),
+    # interval shapes: a slice that contains every other pid-0 letter (equal start with the first letter, later
+    # end) and one that starts inside and outlasts them all -- in every arrival order through the enumeration
+    K("k_44 Cmpt Exec", 0, 0, 8),
+    K("k_9 Cmpt Exec", 0, F(1, 2), 9),
 ]
 
 TOKENS = ["mm", "addmm", "conv2d", "_", "-", "_", "12", "3", "007", ".", " ", "x", "V", "[s=a_1]", "Add", "9"]
@@ -469,6 +479,16 @@ def rand_stream(rng):
             evs.append(K(rng.choice(bases), pid, t, rng.choice([0, F(-1, 4)])))
         else:
             evs.append(K(rng.choice(bases), pid, t, rng.choice([0, 1]), ok=0))
+    # long slices that contain / outlast later-starting ones, and arrival orders other than ascending start
+    for _ in range(rng.choice([0, 0, 1, 2])):
+        j = rng.randrange(len(evs) + 1)
+        t0 = F(evs[j][3]) if j < len(evs) else t
+        evs.insert(j, K(rng.choice(bases), rng.choice(pids), t0, F(rng.randint(2000, 8000), 4)))
+    order = rng.random()
+    if order < 0.3:
+        evs.reverse()
+    elif order < 0.55:
+        rng.shuffle(evs)
     return evs
 
 
@@ -488,6 +508,9 @@ def rand_e2e(rng, i):
             ks.append([rng.choice(names), rat(F(rng.randint(4, 40), 4)), rat(F(rng.randint(4, 80), 4)),
                        rat(F(rng.choice([20, 40, 41, 100, 3, 250, rng.randint(1, 400)]), 4))])
         spec["ranks"].append(ks)
+    if rng.random() < 0.5:
+        spec["long"] = [[[rng.choice(names), rat(F(rng.randint(0, 80), 4)), rat(F(rng.randint(4, 40), 4)),
+                          rat(F(rng.randint(400, 4000), 4))]] if rng.random() < 0.7 else [] for _ in range(R)]
     if spec["allreduce"]:
         spec["tail"] = [[[rng.choice(names), "3", "5", rat(F(rng.randint(1, 200), 4))]] for _ in range(R)]
     return spec
@@ -546,6 +569,11 @@ def _stats_branches(ctx, r):
     ctx.count("groups_with_several_calls", sum(1 for x in rows if x["calls"] > 1))
     ctx.count("single_call_groups", sum(1 for x in rows if x["calls"] == 1))
     ctx.count("groups_merging_different_spellings", sum(1 for v in raw.values() if len(v) > 1))
+    sl_pid = {}
+    for _, pid, ts, dur in r["slices"]:
+        sl_pid.setdefault(pid, []).append((ts, ts + dur))
+    ctx.count("ranks_whose_latest_end_is_not_on_the_latest_start",
+              sum(1 for v in sl_pid.values() if max(v)[1] != max(e for _, e in v)))
     ctx.count("ranks_with_several_groups", sum(1 for v in by_pid.values() if len(v) > 1))
     ctx.count("ranks_with_tied_totals", sum(1 for v in by_pid.values() if len({x["total"] for x in v}) < len(v)))
     ctx.count("even_sized_groups", sum(1 for x in rows if x["calls"] % 2 == 0))
